@@ -522,7 +522,8 @@ def _matrix_inverse_root_higher_order(
         n_matmul += math.ceil(math.log2(p)) + 1
 
         # If the error is too high, let us log and raise an exception for investigation. This should be relatively infrequent (if epsilon isn't too small)
-        if true_error > 1e-1:
+        # NOTE: The negated comparison also catches a NaN error (e.g., when powering X overflows).
+        if not true_error <= 1e-1:
             raise ArithmeticError(
                 f"Error in matrix inverse root (before powering for fractions) {true_error} exceeds threshold 1e-1, raising an exception!"
             )
